@@ -24,6 +24,7 @@ DECIDED = [
     "function shared by all instances; brokers/consumers/processors take the emitter of their own connection",
     "R-C17-ISOLATE (signature): subscriber kwargs are filtered by the subscriber's own signature, not the asyncify wrapper's; R-C17-TABLE (names): every implementation of a wrapped operation keeps the declared parameter names",
     "R-C17-PROTOCOL (wrapped only): the unwrapped _actor_run is referenced only where it is wrapped",
+    "R-C17-EMITTER-OWN (round 5): the wiring loop over emitters has no break / return (every emitter gets its subscribers)",
 ]
 NOT_DECIDED = ["subscriber slowness", "argument fidelity for exotic call styles as values"]
 ASSUMPTIONS = ["asyncio.create_task copies the current context: a ContextVar set inside the task does not leak to the caller"]
@@ -439,6 +440,7 @@ def emitter_own(ctx: Ctx, rule="R-C17-EMITTER-OWN") -> None:
     if len(st) == 1 and len(loops) == 1:
         srcs = " ".join(unparse(x) for _, x in C.deep_defs(ctx, cp, loops[0].iter))  # the collection may come from a helper
         ok = ok and all(nm in srcs for nm in three)
+        ok = ok and not any(isinstance(x, (ast.Break, ast.Return)) for b_ in loops[0].body for x in ast.walk(b_))  # a missing broker is skipped, the others are still wired
     else:
         # written out (or a loop over a literal list, read as unrolled): one store per broker
         bases = {dotted(t.value) for x in st for t in x.targets if isinstance(t, ast.Attribute)}
